@@ -443,6 +443,21 @@ def operator_func(name):
     return Py(g, 'operator.' + name)
 
 
+def _setattr(sk, n, ob, k, v):
+    """setattr(obj, name, value): through the property setter of the object's class when there is one, like an attribute assignment"""
+    if isinstance(ob, Bag) and isinstance(ob._cls, tuple):
+        st = sk.m.lookup(ob._cls, k, 'setters')
+        if st is not None:
+            sk.call(st, [ob, v], {})
+            return None
+        if sk.m.lookup(ob._cls, k, 'getters') is not None:
+            raise Raised('AttributeError', "can't set attribute %s" % k, n)
+    if not isinstance(ob, Bag):
+        raise Unsupported('setattr on %s' % type(ob).__name__)
+    ob._a[k] = v
+    return None
+
+
 def _getattr(sk, n, ob, k, *d):
     """getattr(obj, name[, default]) on modules of the package, abstract objects (instance attributes, then the class's methods,
     properties and class-level attributes) and dictionaries of attributes"""
@@ -1461,7 +1476,7 @@ BUILTINS = {
     'zip': Py(lambda sk, n, *a: list(zip(*[sk.iterate(x, n) for x in a])), 'zip'),
     'enumerate': Py(lambda sk, n, x, *s: list(enumerate(sk.iterate(x, n), *s)), 'enumerate'),
     'isinstance': Py(_isinst, 'isinstance'), 'list': Py(lambda sk, n, *a: list(sk.iterate(a[0], n)) if a else [], 'list'), 'tuple': Py(lambda sk, n, *a: tuple(sk.iterate(a[0], n)) if a else (), 'tuple'),
-    'shallowcopy': Py(_shallowcopy, 'copy.copy'), 'id': Py(lambda sk, n, x: id(x), 'id'), 'setattr': Py(lambda sk, n, ob, k, v: ob._a.__setitem__(k, v), 'setattr'),
+    'shallowcopy': Py(_shallowcopy, 'copy.copy'), 'id': Py(lambda sk, n, x: id(x), 'id'), 'setattr': Py(lambda sk, n, ob, k, v: _setattr(sk, n, ob, k, v), 'setattr'),
     'getattr': Py(lambda sk, n, ob, k, *d: _getattr(sk, n, ob, k, *d), 'getattr'),
     'hasattr': Py(lambda sk, n, ob, k: isinstance(ob, Bag) and k in ob._a, 'hasattr'),
     'dict': Py(lambda sk, n, *a, **k: dict(*a, **k), 'dict'), 'deepcopy': Py(_deepcopy_tracked, 'deepcopy'),
